@@ -51,3 +51,62 @@ fn control_lookup_accepts_only_grammar_names() {
     assert!(found, "lookup accepts a name the grammar does not list");
   }
 }
+
+// ------------------------------------------------------------------------------------------
+// C09, last clause (first link only): every name defined by the standard prelude of RFC 8610
+// Appendix D is recognised by the REAL `lookup_ident` as a reserved token (never as an ordinary
+// identifier that a rule lookup would then fail to find), and distinct names give distinct tokens.
+// The list is the left-hand sides of Appendix D, in RFC order.
+const PRELUDE_NAMES: [&str; 40] = [
+  "any", "uint", "nint", "int", "bstr", "bytes", "tstr", "text", "tdate", "time", "number", "biguint", "bignint", "bigint",
+  "integer", "unsigned", "decfrac", "bigfloat", "eb64url", "eb64legacy", "eb16", "encoded-cbor", "uri", "b64url",
+  "b64legacy", "regexp", "mime-message", "cbor-any", "float16", "float32", "float64", "float16-32", "float32-64", "float",
+  "false", "true", "bool", "nil", "null", "undefined",
+];
+
+#[kani::proof]
+#[kani::unwind(48)]
+fn prelude_names_are_distinct_reserved_tokens() {
+  let mut tags: [Option<core::mem::Discriminant<Token>>; PRELUDE_NAMES.len()] = [None; PRELUDE_NAMES.len()];
+  let mut i = 0;
+  while i < PRELUDE_NAMES.len() {
+    let t = lookup_ident(PRELUDE_NAMES[i]);
+    assert!(!matches!(t, Token::IDENT(..)), "an Appendix D prelude name is treated as an ordinary identifier");
+    tags[i] = Some(core::mem::discriminant(&t));
+    i += 1;
+  }
+  let a: usize = kani::any();
+  let b: usize = kani::any();
+  kani::assume(a < PRELUDE_NAMES.len() && b < PRELUDE_NAMES.len() && a != b);
+  assert!(tags[a] != tags[b], "two prelude names denote the same token");
+}
+
+/// Nothing else is reserved: a text of up to MAXLEN ASCII bytes that is not an Appendix D name is an
+/// ordinary identifier (IDENT).  Bounded in length (MAXLEN >= longest prelude name + 1).
+#[kani::proof]
+#[kani::unwind(48)]
+fn only_prelude_names_are_reserved() {
+  const MAXLEN: usize = 13;
+  let mut buf = [0u8; MAXLEN];
+  let len: usize = kani::any();
+  kani::assume(len <= MAXLEN);
+  let mut i = 0;
+  while i < MAXLEN {
+    let c: u8 = kani::any();
+    kani::assume(c < 0x80);
+    buf[i] = c;
+    i += 1;
+  }
+  let s = unsafe { core::str::from_utf8_unchecked(&buf[..len]) };
+  if !matches!(lookup_ident(s), Token::IDENT(..)) {
+    let mut found = false;
+    let mut k = 0;
+    while k < PRELUDE_NAMES.len() {
+      if PRELUDE_NAMES[k].as_bytes() == s.as_bytes() {
+        found = true;
+      }
+      k += 1;
+    }
+    assert!(found, "a name outside Appendix D is reserved");
+  }
+}
